@@ -267,6 +267,32 @@ CLAIMED = {
              "Counterexamples are replayed on a real HDF5 file with the interruption injected at the same "
              "open.",
         ref="12 (as built)"),
+    "C16": dict(
+        text="PARTIAL. Data frames created in all four documented ways (col_dict, names + dtypes, names + data, "
+             "structured array) from four schemas of 1-6 columns (text, int64, float64, bool, int8, int16, "
+             "uint8) with 0-3 rows; then ONE operation (quick and thorough) or a history of TWO operations "
+             "followed by reads out of: overwrite one row / two rows, overwrite a column by index / by name, "
+             "overwrite a cell by (row, column) position / by column name, append 0-2 rows (incl. a ragged "
+             "one), append a column (right / wrong length, fresh / duplicate name, derived / explicit type), "
+             "set units, four kinds of refused writes. The ROW index is any integer (unbounded), the COLUMN "
+             "index any integer in [-8, 8]. After every step: column names, column types, all cells (read as "
+             "a whole, row by row, column by column by index and by name, cell by cell in both addressing "
+             "modes), df_shape / shape / len / row_count, units and columns equal what the calls made so far "
+             "say (0 <= index < count must be accepted, out-of-range / unknown / wrong-length / duplicate "
+             "must leave the table unchanged, a negative in-range index may be refused or address index + "
+             "count), and a freshly opened File on the same store sees the same table. A duplicate column "
+             "name or missing type information at creation is refused and leaves no frame behind.",
+        note="The real Block.create_data_frame, DataFrame.*, DataSet.append / __getitem__, "
+             "H5DataSet.read_data / write_data run symbolically on fakeh5, whose 1-d compound tables are "
+             "REAL NumPy structured arrays (so record / dtype semantics are NumPy's own) under h5py's "
+             "selection rules (list indices increasing, negative wrap, which exception for which case, "
+             "contiguous vs chunked resizing, text as bytes), pinned to h5py by 52 observations of the "
+             "differential script. Cell VALUES are concrete (tables) - NumPy's conversion of a cell to the "
+             "column type is NumPy's. NOT decided: that libhdf5 stores compound rows faithfully on disk and "
+             "after a real reopen; tables wider than 6 columns / longer than 3+2 rows; histories longer "
+             "than two operations; CSV export, print_table. Counterexamples are replayed on a real HDF5 "
+             "file. Four defects were found and fixed (known_findings.json).",
+        ref="12 (as built)"),
     "C20": dict(
         text="PARTIAL. For one source entity of each copyable kind except data frames (a block with arrays, "
              "descriptors, tag with references and feature, multi-tag, group, nested sources and metadata "
@@ -285,8 +311,8 @@ CLAIMED = {
              "policy, returned object, non-recursive handling - executed symbolically on fakeh5, whose copy "
              "is a deep copy with H5Ocopy's sharing rules (links inside the hierarchy stay shared inside the "
              "copy, cycles, links leaving it are duplicated, shallow = immediate members) pinned to h5py by "
-             "the differential script. NOT decided: libhdf5's byte-level copy; data frames (they do not run "
-             "with the installed NumPy); one fixture. Counterexamples are replayed on real HDF5 files. "
+             "the differential script. NOT decided: libhdf5's byte-level copy; data frames as copy sources; "
+             "one fixture. Counterexamples are replayed on real HDF5 files. "
              "KF-C20-1 (same-file copies with kept ids are not independent under deletion) is a known finding.",
         ref="12 (as built)"),
     "C01": dict(
@@ -310,10 +336,6 @@ CLAIMED = {
 }
 
 NOT_APPLICABLE = {
-    "C16": "Solver-based checking not applicable: every data-frame operation is NumPy structured-array / "
-           "HDF5 compound-type manipulation behind C boundaries (CrossHair concretises there); in "
-           "addition the data-frame code does not run with the installed NumPy 2.x (all data-frame "
-           "tests are in the baseline's always-fail list).",
     "C17": "Solver-based checking not applicable: flush/close durability under SIGKILL is libhdf5 cache "
            "flushing plus the kernel page cache; the repository's share is two delegating lines with "
            "no input to make symbolic, and crash points cannot be encoded with the tools present.",
